@@ -712,7 +712,33 @@ func unquoteSingle(body string) (string, error) {
 	return sb.String(), nil
 }
 
-var abLexer = lexer.MustSimple([]lexer.SimpleRule{{Name: "A", Pattern: `a+`}, {Name: "B", Pattern: `b+`}, {Name: "S", Pattern: ` +`}})
+var abLexer = lexer.MustSimple([]lexer.SimpleRule{{Name: "A", Pattern: `[aé]+`}, {Name: "B", Pattern: `b+`}, {Name: "S", Pattern: ` +`}})
+
+// abVariants: the same three token types numbered differently: behind 61 and 126 rules that never match
+// (types around -64 and -128), and declared in another order. The SAME option values are used to build a
+// parser for each of them in turn.
+var abVariants = func() []struct {
+	name string
+	def  *lexer.StatefulDefinition
+} {
+	filler := func(n int) []lexer.SimpleRule {
+		var out []lexer.SimpleRule
+		for i := 0; i < n; i++ {
+			out = append(out, lexer.SimpleRule{Name: fmt.Sprintf("F%d", i), Pattern: fmt.Sprintf("#f%d#", i)})
+		}
+		return out
+	}
+	abs := []lexer.SimpleRule{{Name: "A", Pattern: `[aé]+`}, {Name: "B", Pattern: `b+`}, {Name: "S", Pattern: ` +`}}
+	return []struct {
+		name string
+		def  *lexer.StatefulDefinition
+	}{
+		{"A,B,S", abLexer},
+		{"61 rules,A,B,S", lexer.MustSimple(append(filler(61), abs...))},
+		{"S,B,A", lexer.MustSimple([]lexer.SimpleRule{abs[2], abs[1], abs[0]})},
+		{"126 rules,B,A,S", lexer.MustSimple(append(filler(126), abs[1], abs[0], abs[2]))},
+	}
+}()
 
 type GAB struct {
 	V []string `@(A | B)*`
@@ -744,100 +770,105 @@ func runC18Mappers(w *hx.Worker, inputs []string) {
 			t.Value = "<" + t.Value + ">"
 			return t, nil
 		}
-		plain, err0 := participle.Build[GAB](participle.Lexer(abLexer), participle.Elide("S"))
-		upper, err1 := participle.Build[GAB](participle.Lexer(abLexer), participle.Elide("S"), participle.Upper(sel...))
-		mapped, err2 := participle.Build[GAB](participle.Lexer(abLexer), participle.Elide("S"), participle.Map(counting, sel...))
-		if err0 != nil || err1 != nil || err2 != nil {
-			w.Violate(hx.Violation{Key: fmt.Sprintf("mappers sel=%v", sel), Class: "build-failed", Detail: map[string]any{"e": fmt.Sprint(err0, err1, err2)}})
-			continue
-		}
-		sym := abLexer.Symbols()
-		for _, in := range inputs {
-			key := fmt.Sprintf("mappers sel=%v in=%q", sel, in)
-			w.Count("evaluations", 1)
-			base, e0 := plain.Lex("", strings.NewReader(in))
-			up, e1 := upper.Lex("", strings.NewReader(in))
-			calls = nil
-			mp, e2 := mapped.Lex("", strings.NewReader(in))
-			lexCalls := calls
-			if e0 != nil || e1 != nil || e2 != nil {
-				if (e0 == nil) != (e1 == nil) || (e0 == nil) != (e2 == nil) {
-					w.Violate(hx.Violation{Key: key, Class: "mapper-changes-lexability", Detail: map[string]any{"e": fmt.Sprint(e0, e1, e2)}})
-				}
+		// one value of each option, used for every lexer variant in turn
+		optElide, optUpper, optMap := participle.Elide("S"), participle.Upper(sel...), participle.Map(counting, sel...)
+		for _, variant := range abVariants {
+			abLexer := variant.def
+			plain, err0 := participle.Build[GAB](participle.Lexer(abLexer), optElide)
+			upper, err1 := participle.Build[GAB](participle.Lexer(abLexer), optElide, optUpper)
+			mapped, err2 := participle.Build[GAB](participle.Lexer(abLexer), optElide, optMap)
+			if err0 != nil || err1 != nil || err2 != nil {
+				w.Violate(hx.Violation{Key: fmt.Sprintf("mappers lexer=%s sel=%v", variant.name, sel), Class: "build-failed", Detail: map[string]any{"e": fmt.Sprint(err0, err1, err2)}})
 				continue
 			}
-			bad := ""
-			if len(up) != len(base) || len(mp) != len(base) {
-				bad = "token count changed"
-			}
-			var wantCalls []lexer.Token
-			for i := 0; bad == "" && i < len(base); i++ {
-				b := base[i]
-				if up[i].Type != b.Type || up[i].Pos != b.Pos || mp[i].Type != b.Type || mp[i].Pos != b.Pos {
-					bad = fmt.Sprintf("type/position of token %d changed", i)
-				}
-				wantU, wantM := b.Value, b.Value
-				if !b.EOF() && selected(sym, b.Type) {
-					wantU = strings.ToUpper(b.Value)
-					wantM = "<" + b.Value + ">"
-					wantCalls = append(wantCalls, b)
-				}
-				if !b.EOF() && (up[i].Value != wantU || mp[i].Value != wantM) {
-					bad = fmt.Sprintf("token %d: upper %q (want %q), mapped %q (want %q)", i, up[i].Value, wantU, mp[i].Value, wantM)
-				}
-			}
-			if bad == "" {
-				var got []lexer.Token
-				for _, c := range lexCalls {
-					if !c.EOF() {
-						got = append(got, c)
-					}
-				}
-				if fmt.Sprint(got) != fmt.Sprint(wantCalls) || len(got) != len(wantCalls) {
-					bad = fmt.Sprintf("custom mapper saw %v, expected exactly %v", got, wantCalls)
-				} else {
-					for i := range got {
-						if got[i] != wantCalls[i] {
-							bad = fmt.Sprintf("custom mapper call %d saw %#v, expected %#v", i, got[i], wantCalls[i])
-						}
-					}
-				}
-			}
-			if bad == "" {
-				// a parse with elision: the mapper still sees every selected token once, before elision
+			sym := abLexer.Symbols()
+			for _, in := range inputs {
+				key := fmt.Sprintf("mappers lexer=%s sel=%v in=%q", variant.name, sel, in)
+				w.Count("evaluations", 1)
+				base, e0 := plain.Lex("", strings.NewReader(in))
+				up, e1 := upper.Lex("", strings.NewReader(in))
 				calls = nil
-				g, perr := mapped.ParseString("", in)
-				var got []lexer.Token
-				for _, c := range calls {
-					if !c.EOF() {
-						got = append(got, c)
+				mp, e2 := mapped.Lex("", strings.NewReader(in))
+				lexCalls := calls
+				if e0 != nil || e1 != nil || e2 != nil {
+					if (e0 == nil) != (e1 == nil) || (e0 == nil) != (e2 == nil) {
+						w.Violate(hx.Violation{Key: key, Class: "mapper-changes-lexability", Detail: map[string]any{"e": fmt.Sprint(e0, e1, e2)}})
+					}
+					continue
+				}
+				bad := ""
+				if len(up) != len(base) || len(mp) != len(base) {
+					bad = "token count changed"
+				}
+				var wantCalls []lexer.Token
+				for i := 0; bad == "" && i < len(base); i++ {
+					b := base[i]
+					if up[i].Type != b.Type || up[i].Pos != b.Pos || mp[i].Type != b.Type || mp[i].Pos != b.Pos {
+						bad = fmt.Sprintf("type/position of token %d changed", i)
+					}
+					wantU, wantM := b.Value, b.Value
+					if !b.EOF() && selected(sym, b.Type) {
+						wantU = strings.ToUpper(b.Value)
+						wantM = "<" + b.Value + ">"
+						wantCalls = append(wantCalls, b)
+					}
+					if !b.EOF() && (up[i].Value != wantU || mp[i].Value != wantM) {
+						bad = fmt.Sprintf("token %d: upper %q (want %q), mapped %q (want %q)", i, up[i].Value, wantU, mp[i].Value, wantM)
 					}
 				}
-				if len(got) != len(wantCalls) {
-					bad = fmt.Sprintf("during Parse the custom mapper saw %d tokens, expected %d", len(got), len(wantCalls))
-				}
-				if perr == nil && bad == "" {
-					var wantV []string
-					for _, b := range base {
-						if b.EOF() || b.Type == sym["S"] {
-							continue
+				if bad == "" {
+					var got []lexer.Token
+					for _, c := range lexCalls {
+						if !c.EOF() {
+							got = append(got, c)
 						}
-						if selected(sym, b.Type) {
-							wantV = append(wantV, "<"+b.Value+">")
-						} else {
-							wantV = append(wantV, b.Value)
+					}
+					if fmt.Sprint(got) != fmt.Sprint(wantCalls) || len(got) != len(wantCalls) {
+						bad = fmt.Sprintf("custom mapper saw %v, expected exactly %v", got, wantCalls)
+					} else {
+						for i := range got {
+							if got[i] != wantCalls[i] {
+								bad = fmt.Sprintf("custom mapper call %d saw %#v, expected %#v", i, got[i], wantCalls[i])
+							}
 						}
 					}
-					if fmt.Sprint(g.V) != fmt.Sprint(wantV) {
-						bad = fmt.Sprintf("parsed values %v, expected %v", g.V, wantV)
+				}
+				if bad == "" {
+					// a parse with elision: the mapper still sees every selected token once, before elision
+					calls = nil
+					g, perr := mapped.ParseString("", in)
+					var got []lexer.Token
+					for _, c := range calls {
+						if !c.EOF() {
+							got = append(got, c)
+						}
+					}
+					if len(got) != len(wantCalls) {
+						bad = fmt.Sprintf("during Parse the custom mapper saw %d tokens, expected %d", len(got), len(wantCalls))
+					}
+					if perr == nil && bad == "" {
+						var wantV []string
+						for _, b := range base {
+							if b.EOF() || b.Type == sym["S"] {
+								continue
+							}
+							if selected(sym, b.Type) {
+								wantV = append(wantV, "<"+b.Value+">")
+							} else {
+								wantV = append(wantV, b.Value)
+							}
+						}
+						if fmt.Sprint(g.V) != fmt.Sprint(wantV) {
+							bad = fmt.Sprintf("parsed values %v, expected %v", g.V, wantV)
+						}
 					}
 				}
+				if bad != "" {
+					w.Violate(hx.Violation{Key: key, Class: "mapper", Detail: map[string]any{"what": bad}})
+					continue
+				}
+				w.DistinctS(fmt.Sprintf("%v%v", sel, mp))
 			}
-			if bad != "" {
-				w.Violate(hx.Violation{Key: key, Class: "mapper", Detail: map[string]any{"what": bad}})
-				continue
-			}
-			w.DistinctS(fmt.Sprintf("%v%v", sel, mp))
 		}
 	}
 }
@@ -1009,7 +1040,7 @@ func plan(c *hx.Ctx) *hx.Plan {
 	}
 	ss := strs(c18alpha, ml)
 	soups := strs([]string{`\`, "x", "u", "0", "7", "8", "q", `"`, "a", "'"}, soupLen)
-	abIns := strs([]string{"a", "b", " "}, abLen)
+	abIns := strs([]string{"a", "b", " ", "é"}, abLen)
 	cs := chunks(ss, 500)
 	sc := chunks(soups, 1000)
 	n1, n2 := len(cs), len(cs)+len(sc)
@@ -1036,7 +1067,7 @@ func plan(c *hx.Ctx) *hx.Plan {
 			}
 		},
 		Describe: func(i int) string { return fmt.Sprintf("chunk %d", i) },
-		Rule:     "Unquote: every string s up to the length bound over {a, \", ', `, \\, newline, tab, é, 日, NUL, 0xff, soft hyphen} x quoting styles {strconv.Quote, QuoteToASCII, back-quotes when CanBackquote, QuoteRune for one rune} x lexers {text/scanner, stateful}: parsing the quoted text must capture exactly s. Escape soups: every body up to length 4 over {\\,x,u,0,7,8,q,\",a,'} between double and single quotes that lexes as one token: value equals strconv's, or a located error. Upper / custom Map: every subset of the token types of a 3-type lexer x every input up to length 5: unselected tokens and all positions unchanged, mapper sees each selected non-EOF token exactly once in order, before elision",
+		Rule:     "Unquote: every string s up to the length bound over {a, \", ', `, \\, newline, tab, é, 日, NUL, 0xff, soft hyphen} x quoting styles {strconv.Quote, QuoteToASCII, back-quotes when CanBackquote, QuoteRune for one rune} x lexers {text/scanner, stateful}: parsing the quoted text must capture exactly s. Escape soups: every body up to length 4 over {\\,x,u,0,7,8,q,\",a,'} between double and single quotes that lexes as one token: value equals strconv's, or a located error. Upper / custom Map: every subset of the token types of a 3-type lexer (in 4 numberings of its types: plain, behind 61 and 126 other rules, reordered; one set of option values re-used for all of them) x every input over {a,b,space,é} up to the length bound: unselected tokens and all positions unchanged, mapper sees each selected non-EOF token exactly once in order, before elision",
 		Bounds:   map[string]any{"max_string_len": ml, "soup_len": soupLen, "strings": len(ss), "soups": len(soups), "mapper_inputs": len(abIns)},
 		Assume:   []string{"strconv.Quote/Unquote define Go quoting"},
 	}
@@ -1072,7 +1103,7 @@ func replay(c *hx.Ctx, key string) []hx.Violation {
 	// re-run the whole (cheap) space and keep the matching key
 	runC18Strings(w, ctx, strs(c18alpha, 5))
 	runC18Soups(w, ctx, strs([]string{`\`, "x", "u", "0", "7", "8", "q", `"`, "a", "'"}, 5))
-	runC18Mappers(w, strs([]string{"a", "b", " "}, 6))
+	runC18Mappers(w, strs([]string{"a", "b", " ", "é"}, 6))
 	runC18Combos(w, strs([]string{"a", "b", " "}, 4))
 	var out []hx.Violation
 	for _, v := range w.Violations() {
